@@ -9,7 +9,7 @@ CORPUS = ['C10']
 
 
 def check(ctx):
-    return S.standard_check(ctx, "C10", PLAN, MONITORS, THEOREMS, corpus_dirs=CORPUS)
+    return S.standard_check(ctx, "C10", PLAN, MONITORS, THEOREMS, corpus_dirs=CORPUS, e2e=2)
 
 
 def replay(ctx, path):
